@@ -27,7 +27,7 @@ MODEL_TARGETS = ["Model/Clip.vo", "Model/Plot.vo", "Model/PlotGlue.vo"]
 TARGETS = ["Proofs/ClipFacts.vo", "Proofs/PlotFacts.vo", "Proofs/VisFacts.vo", "Proofs/CoverFacts.vo", "Proofs/PlaqFacts.vo",
            "Proofs/PolyAreaFacts.vo", "Proofs/PolyCellFacts.vo", "Proofs/PolyRegionFacts.vo", "Proofs/PlaqCoverFacts.vo",
            "Proofs/PolyStrictFacts.vo", "Proofs/PolyExactFacts.vo", "Proofs/PlaqPointFacts.vo",
-           "Proofs/ClipAnyFacts.vo", "Proofs/ClipGenArea.vo", "Proofs/PlotGlueFacts.vo"]
+           "Proofs/ClipAnyFacts.vo", "Proofs/ClipGenArea.vo", "Proofs/PlotGlueFacts.vo", "Proofs/EdgePiecesFacts.vo"]
 LEVEL = "proof"
 TRUST = [
     "hand-written Gallina model coq/Model/Plot.v of plotting.py (_process_plot_args, _broadcast_args, plot_vertices/edges/plaquettes replication rules, "
